@@ -27,6 +27,7 @@
 //            flupper (only the two flag digits upper-case)
 //   ts       none | one | three | full32: simple members key=value
 //   caller context: empty | marker only | marker + a valid local span (rotates with the instance)
+// TAIL FAMILY (k = "t"): see run_tail_case below - token-level values, all 256 byte values per replaced position.
 // SWEEP: a case carrying "sweep" ("full" | "rot") has exactly one bad-byte dimension; instead of n random
 // concretisations the harness enumerates EVERY byte value of that class at every position of the field
 // ("rot": at one position per byte value, rotating with the seed) - see c09_carrier.h (ByteClass).
@@ -659,9 +660,363 @@ static int record(uint64_t seed, long n)
   }, [](size_t ii) { return long(ii); }, 12);
 }
 
+// ---- the tail family: token-level header values, every byte value of a class, exact-size views --------------
+// (spec/TraceContextHeader.tla, InitTail / TailExtract.)  A case gives the traceparent and the tracestate as
+// TOKENS of the vocabulary TailTok, in which every byte value has exactly one token; the harness expands the
+// replaced position (and every position holding a class token) to ALL byte values of the token's class:
+//   0..15 '0'..'9' 'a'..'f' | 26..31 'A'..'F' | 40 '-' | 41 SP HT | 42 CR LF VT FF | 44 '=' | 45 ',' |
+//   46 'g'..'z' | 47 'G'..'Z' | 43 every other byte value (185 of them)
+// Every value is handed over as a string_view into a heap block that ends EXACTLY where the value ends (an empty
+// value: a zero-length view at the end of a block) - AddressSanitizer sees any read behind it - and again
+// followed, inside the block, by the form's own continuation (`rest`) or adversarial bytes (hex digits, '-',
+// '=', ',', with / without a final NUL): the observation must be the same ("result depends on bytes behind the
+// view" otherwise) and must be what TLC computed for exactly that value.
+static int token_of_tail(unsigned char c)
+{
+  if (c == '=')
+    return 44;
+  if (c == ',')
+    return 45;
+  if (c >= 'g' && c <= 'z')
+    return 46;
+  if (c >= 'G' && c <= 'Z')
+    return 47;
+  return token_of(c);
+}
+static const std::vector<std::vector<unsigned char>> &token_classes()
+{
+  static std::vector<std::vector<unsigned char>> t;
+  if (t.empty())
+  {
+    t.resize(64);
+    for (unsigned b = 0; b < 256; ++b)
+      t[size_t(token_of_tail((unsigned char)b))].push_back((unsigned char)b);
+  }
+  return t;
+}
+static const std::vector<unsigned char> &class_of(int tok)
+{
+  if (tok < 0 || tok >= 64 || token_classes()[size_t(tok)].empty())
+  {
+    fprintf(stderr, "harness: token %d has no byte\n", tok);
+    exit(9);
+  }
+  return token_classes()[size_t(tok)];
+}
+
+// A carrier whose Get() returns views into heap blocks that end EXACTLY where the value ends (mode 0), or that
+// go on with `behind` (+ NUL in mode 1) inside the same block.  An absent header is a zero-length view at the
+// end of a block.
+class ViewCarrier : public opentelemetry::context::propagation::TextMapCarrier
+{
+public:
+  struct Item
+  {
+    std::string key, val, behind;
+    int mode;
+  };
+  ~ViewCarrier() override { Release(); }
+  void Put(const std::string &key, const std::string &val, int mode = 0, const std::string &behind = "")
+  {
+    items_.push_back(Item{lower(key), val, behind, mode});
+  }
+  opentelemetry::nostd::string_view Get(opentelemetry::nostd::string_view key) const noexcept override
+  {
+    std::string k  = lower(std::string(key.data(), key.size()));
+    const Item *it = nullptr;
+    for (auto &i : items_)
+      if (i.key == k)
+        it = &i;
+    size_t n = it ? it->val.size() : 0;
+    if (!it || it->mode == 0)
+    {
+      if (n == 0)
+      {
+        size_t pad = 1 + (bufs_.size() % 7);
+        char *p    = static_cast<char *>(malloc(pad));
+        memset(p, 'Z', pad);
+        bufs_.emplace_back(p, pad);
+        return opentelemetry::nostd::string_view(p + pad, 0);
+      }
+      char *p = static_cast<char *>(malloc(n));
+      memcpy(p, it->val.data(), n);
+      bufs_.emplace_back(p, n);
+      return opentelemetry::nostd::string_view(p, n);
+    }
+    size_t total = n + it->behind.size() + (it->mode == 1 ? 1 : 0);
+    char *p      = static_cast<char *>(malloc(total ? total : 1));
+    if (n)
+      memcpy(p, it->val.data(), n);
+    if (!it->behind.empty())
+      memcpy(p + n, it->behind.data(), it->behind.size());
+    if (it->mode == 1)
+      p[total - 1] = '\0';
+    bufs_.emplace_back(p, total ? total : 1);
+    return opentelemetry::nostd::string_view(p, n);
+  }
+  void Set(opentelemetry::nostd::string_view, opentelemetry::nostd::string_view) noexcept override {}
+  void Release()
+  {
+    for (auto &b : bufs_)
+    {
+      memset(b.first, 0xDD, b.second);
+      free(b.first);
+    }
+    bufs_.clear();
+  }
+
+private:
+  std::vector<Item> items_;
+  mutable std::vector<std::pair<char *, size_t>> bufs_;
+};
+
+// what may lie behind a view when the spec gives no continuation (or every other time): hex digits, the
+// separators of both headers, a complete next field / member - followed by a little more of the same alphabet
+static std::string adversarial_behind(Rng &r)
+{
+  static const std::vector<std::string> head = {"0", "1", "a", "b", "f", "01", "ab", "00", "-", "-0", "-1", "-01", "-ab", "0-", "1-0",
+                                                "=", "=1", ",", ",g1=2", "g", "g=1", "1,g1=2", " ", "\t-", "=1,h2=3"};
+  static const std::string more = "0123456789abcdef-=,g ";
+  std::string s = r.pick(head);
+  for (uint32_t k = r.below(9); k > 0; --k)
+    s += r.pick(more);
+  return s;
+}
+
+struct TailObs
+{
+  Obs o;
+  bool same(const TailObs &b) const
+  {
+    return o.kind == b.o.kind && o.remote == b.o.remote && o.flags == b.o.flags && memcmp(o.tid, b.o.tid, 16) == 0 &&
+           memcmp(o.sid, b.o.sid, 8) == 0 && o.ts == b.o.ts;
+  }
+};
+
+// exp = TLC's TailOutcome: {o, tid, sid (digit values), flags, ts: {k: "exact" | "any", e: [{ka, kb, va, vb}]}};
+// the entry ranges (1-based, inclusive) index the concrete tracestate value
+static bool exact_tok(const json &exp, const Obs &o, const std::string &tsval)
+{
+  uint8_t tid[16] = {0}, sid[8] = {0};
+  const json &t = exp["tid"], &s = exp["sid"];
+  if (t.size() != 32 || s.size() != 16)
+  {
+    fprintf(stderr, "harness: outcome %s without 32/16 id digits\n", exp["o"].get<std::string>().c_str());
+    exit(9);
+  }
+  for (size_t i = 0; i < 16; ++i)
+    tid[i] = uint8_t(t[2 * i].get<int>() * 16 + t[2 * i + 1].get<int>());
+  for (size_t i = 0; i < 8; ++i)
+    sid[i] = uint8_t(s[2 * i].get<int>() * 16 + s[2 * i + 1].get<int>());
+  if (!(o.kind == "valid" && o.remote && memcmp(o.tid, tid, 16) == 0 && memcmp(o.sid, sid, 8) == 0 &&
+        o.flags == exp["flags"].get<int>()))
+    return false;
+  const std::string k = exp["ts"]["k"];
+  if (k == "any")
+    return true;
+  if (k != "exact")
+  {
+    fprintf(stderr, "harness: unknown trace-state expectation %s\n", k.c_str());
+    exit(9);
+  }
+  Entries want;
+  for (auto &e : exp["ts"]["e"])
+  {
+    size_t ka = e["ka"].get<size_t>(), kb = e["kb"].get<size_t>(), va = e["va"].get<size_t>(), vb = e["vb"].get<size_t>();
+    if (ka < 1 || kb < ka || va <= kb || vb < va || vb > tsval.size())
+    {
+      fprintf(stderr, "harness: bad entry range %zu..%zu %zu..%zu in a value of %zu bytes\n", ka, kb, va, vb, tsval.size());
+      exit(9);
+    }
+    want.emplace_back(tsval.substr(ka - 1, kb - ka + 1), tsval.substr(va - 1, vb - va + 1));
+  }
+  return o.ts == want;
+}
+static bool satisfies_tok(const json &exp, const Obs &o, const std::string &tsval)
+{
+  const std::string k = exp["o"];
+  if (k == "accept")
+    return exact_tok(exp, o, tsval);
+  if (k == "reject")
+    return o.kind == "unchanged";
+  if (k == "either")
+    return o.kind == "unchanged" || exact_tok(exp, o, tsval);
+  fprintf(stderr, "harness: unknown outcome %s\n", k.c_str());
+  exit(9);
+}
+
+static std::string json_escaped(const std::string &s)  // esc() output inside a hand-written JSON string
+{
+  std::string o;
+  for (char c : esc(s))
+  {
+    if (c == '\\')
+      o += '\\';
+    o += c;
+  }
+  return o;
+}
+
+// One tail case: all its executions.  Result line as replay_cases' (+ "bytes": byte values run at the replaced
+// position, "n": executions).
+static json run_tail_case(const json &cs, uint64_t seed)
+{
+  long id            = cs["id"].get<long>();
+  long seed_id       = cs.value("seed_id", id);
+  const json &tl     = cs["tl"];
+  const bool swept_ts = tl["h"] == "ts";
+  const int cut = tl["cut"].get<int>(), pos = tl["pos"].get<int>();
+  std::vector<int> v = (swept_ts ? cs["ts"]["v"] : cs["tp"]).get<std::vector<int>>();
+  if (int(v.size()) != cut || pos > cut || (swept_ts && !cs["ts"]["p"].get<bool>()))
+  {
+    fprintf(stderr, "harness: tail case %ld: value has %zu tokens, cut %d, pos %d\n", id, v.size(), cut, pos);
+    exit(9);
+  }
+  Rng r(mix(seed, uint64_t(seed_id), 4242));
+  // the companion header (exact bytes; its class tokens, if any, drawn once)
+  std::string comp;
+  const bool has_comp = swept_ts;  // tracestate values stand next to a traceparent; traceparent values stand alone
+  if (swept_ts)
+    for (int t : cs["tp"].get<std::vector<int>>())
+      comp += char(r.pick(class_of(t)));
+  else if (cs["ts"]["p"].get<bool>())
+  {
+    fprintf(stderr, "harness: tail case %ld: traceparent member with a tracestate\n", id);
+    exit(9);
+  }
+  std::string rest;
+  for (int t : cs["rest"].get<std::vector<int>>())
+    rest += char(class_of(t)[0]);
+  // positions that are expanded: the replaced one and every one holding a class token
+  const int sw = pos > 0 ? cut - pos : -1;
+  size_t runs  = 1;
+  std::vector<size_t> off(v.size(), 0);
+  for (size_t q = 0; q < v.size(); ++q)
+  {
+    size_t n = class_of(v[q]).size();
+    if (n > 1 || int(q) == sw)
+      runs = std::max(runs, n);
+    off[q] = int(q) == sw ? 0 : r.below(uint32_t(n));
+  }
+  json out        = {{"id", id}, {"v", "ok"}};
+  const json &exp = cs["exp"];
+  const char *hdr = swept_ts ? "tracestate" : "traceparent";
+  size_t execs = 0, bytes = 0;
+  int valid = 0, unchanged = 0;
+  std::vector<bool> seen(256, false);
+  static char cur[2048];
+  for (size_t i = 0; i < runs && out["v"] == "ok"; ++i)
+  {
+    std::string val;
+    for (size_t q = 0; q < v.size(); ++q)
+    {
+      const auto &c = class_of(v[q]);
+      val += char(c[(i + off[q]) % c.size()]);
+    }
+    if (sw >= 0 && !seen[(unsigned char)val[size_t(sw)]])
+    {
+      seen[(unsigned char)val[size_t(sw)]] = true;
+      ++bytes;
+    }
+    // modes: 0 exact; then followed in-buffer by bytes, 1 with / 2 without a final NUL
+    std::vector<int> modes = {0};
+    if (runs <= 4)
+    {
+      modes.push_back(1);
+      modes.push_back(2);
+    }
+    else if ((i + uint64_t(seed_id)) % 3 == 0)  // large classes: every third value (rotating with the case)
+      modes.push_back(1 + int((i / 3 + uint64_t(seed_id)) % 2));
+    TailObs first;
+    for (size_t mi = 0; mi < modes.size(); ++mi)
+    {
+      int mode           = modes[mi];
+      std::string behind = mode == 0 ? "" : (!rest.empty() && (mi + i) % 2 == 1) ? rest : adversarial_behind(r);
+      int callerv        = int((i + uint64_t(seed_id)) % 3);
+      snprintf(cur, sizeof cur,
+               "{\"id\":%ld,\"inst\":%zu,\"v\":\"crash\",\"concrete\":{\"header\":\"%s\",\"value\":\"%s\",\"length\":%zu,"
+               "\"buffer\":\"%s\",\"behind\":\"%s\",\"other_header\":\"%s\"}}",
+               id, i, hdr, json_escaped(val).c_str(), val.size(),
+               mode == 0 ? "exact size" : mode == 1 ? "value+behind+NUL" : "value+behind", json_escaped(behind).c_str(),
+               json_escaped(comp).c_str());
+      current_case() = cur;
+      Rng rc(mix(seed, uint64_t(seed_id), 7 + i));  // the same caller context for every mode of this value
+      Caller caller = make_caller(rc, callerv);
+      trace::propagation::HttpTraceContext prop;
+      ViewCarrier vc;
+      vc.Put(hdr, val, mode, behind);
+      if (has_comp)
+        vc.Put("traceparent", comp);
+      ctxns::Context in  = caller.ctx;
+      ctxns::Context res = prop.Extract(vc, in);
+      vc.Release();
+      Caller c2 = caller;
+      c2.ctx    = in;
+      TailObs t;
+      t.o = observe(res, c2);
+      ++execs;
+      valid += t.o.kind == "valid";
+      unchanged += t.o.kind == "unchanged";
+      bool ok  = satisfies_tok(exp, t.o, swept_ts ? val : std::string());
+      bool dep = mi > 0 && !t.same(first);
+      if (mi == 0)
+        first = t;
+      if (!ok || dep || (execs == 1 && (id & 1023) == 0))
+      {
+        json conc = {{"traceparent", esc(swept_ts ? comp : val)},
+                     {"tracestate", swept_ts ? json(esc(val)) : json(nullptr)},
+                     {"swept", hdr},
+                     {"buffer", mode == 0 ? "exact size" : mode == 1 ? "value+behind+NUL" : "value+behind"},
+                     {"behind", esc(behind)},
+                     {"caller", callerv}};
+        out["res"] = {{"ok", ok && !dep}, {"kind", t.o.kind}, {"concrete", conc}, {"observed", t.o.to_json()}};
+        if (dep)
+        {
+          out["res"]["depends_on_bytes_behind_the_view"] = true;
+          out["res"]["observed_with_exact_buffer"]       = first.o.to_json();
+        }
+        if (!ok || dep)
+        {
+          out["v"]    = "bad";
+          out["inst"] = i;
+          break;
+        }
+      }
+    }
+  }
+  out["n"]         = execs;
+  out["bytes"]     = bytes;
+  out["valid"]     = valid;
+  out["unchanged"] = unchanged;
+  return out;
+}
+
+static int tail_cases(const char *path, uint64_t seed)
+{
+  auto cases = read_cases(path);
+  int rc     = forked_loop(cases.size(), [&](size_t ci) { std::cout << run_tail_case(cases[ci], seed).dump() << std::endl; },
+                       [&](size_t ci) { return cases[ci]["id"].get<long>(); });
+  if (rc != 0)
+    return rc;
+  std::cout << "{\"done\":" << cases.size() << "}" << std::endl;
+  return 0;
+}
+// a case file holds either tail cases only or none
+static bool is_tail_file(const char *path)
+{
+  std::ifstream f(path);
+  std::string ln;
+  while (std::getline(f, ln))
+    if (!ln.empty())
+      return json::parse(ln).value("k", "") == "t";
+  return false;
+}
+
 int main(int argc, char **argv)
 {
   install_death_callback();
+  if (argc >= 5 && std::string(argv[1]) == "replay" && is_tail_file(argv[2]))
+    return tail_cases(argv[2], strtoull(argv[3], nullptr, 10));
   if (argc >= 5 && std::string(argv[1]) == "replay")
     return replay_cases(argv[2], strtoull(argv[3], nullptr, 10), atoi(argv[4]), run_rt, run_x, sweep_site);
   if (argc >= 4 && std::string(argv[1]) == "record")
